@@ -594,14 +594,19 @@ def proof_layer(ctx):
 
 # ------------------------------------------------------------------------------------------ the check body
 
+F1_TEXT = ("fullWriteAt sends the in-loop hole to d.files[val] (the file of the current block) with the previous "
+           "run's offset/length: an aligned multi-block write over blocks with different owners punches a block of a "
+           "user-created snapshot")
 KNOWN = {
-    "C06": ("f1-hole-wrong-file", is_f1_shape,
-            "fullWriteAt sends the in-loop hole to d.files[val] (the file of the current block) with the previous "
-            "run's offset/length: an aligned multi-block write over blocks with different owners punches a block of a "
-            "user-created snapshot"),
-    "C11": ("s7-raw-remove-base", is_s7_shape,
-            "Replica.RemoveDiffDisk (REST action removedisk) refuses head and latest snapshot but accepts the base "
-            "snapshot: its data is unlinked without a merge and the live volume changes"),
+    "C06": [("f1-hole-wrong-file", is_f1_shape, F1_TEXT)],
+    # the same defect seen through a later revert to the damaged user-created snapshot
+    "C01": [("f1-hole-wrong-file", lambda c: is_f1_shape(c) and any(o["k"] == "revert" for o in c["ops"]),
+             F1_TEXT + "; a later revert to that snapshot then reads zeros")],
+    "C16": [("f1-hole-wrong-file", lambda c: is_f1_shape(c) and any(o["k"] == "revert" for o in c["ops"]),
+             F1_TEXT + "; a later revert to that snapshot then reads zeros")],
+    "C11": [("s7-raw-remove-base", is_s7_shape,
+             "Replica.RemoveDiffDisk (REST action removedisk) refuses head and latest snapshot but accepts the base "
+             "snapshot: its data is unlinked without a merge and the live volume changes")],
 }
 
 NONTRIVIAL = {
@@ -632,23 +637,23 @@ def gen_cases(ctx, pid, quick):
     cases = list(corpus(pid))
     if pid == "C01":
         cases += enum_split_cases(8)
-        n = 150 if quick else 4000
+        n = 230 if quick else 5000
         for i in range(n):
             cases.append(Gen.make(rng, rng.randint(8, 15), rev=False))
         for i in range(6 if quick else 60):
             cases.append(Gen.make(rng, rng.randint(6, 9), K=4096, nb=3, bias=dict(resize=0.0)))
     elif pid == "C06":
-        cases += c06_cases(rng, 110 if quick else 3000)
-        for i in range(20 if quick else 500):
+        cases += c06_cases(rng, 190 if quick else 4000)
+        for i in range(40 if quick else 800):
             cases.append(Gen.make(rng, rng.randint(8, 14), rev=True, bias=dict(revert=0.12, user=0.6)))
     elif pid == "C11":
         cases += [S7_CASE]
-        cases += chain_shape_cases(rng, 60 if quick else 2000)
-        for i in range(40 if quick else 1000):
+        cases += chain_shape_cases(rng, 100 if quick else 2500)
+        for i in range(70 if quick else 1500):
             cases.append(Gen.make(rng, rng.randint(10, 16), bias=dict(snap=0.25, **{"del": 0.2})))
     elif pid == "C16":
         cases += resize_enum_cases()
-        cases += resize_cases(rng, 110 if quick else 3000)
+        cases += resize_cases(rng, 190 if quick else 4000)
     return cases
 
 
@@ -692,9 +697,19 @@ def main_for(ctx, replay=None):
     concrete = [x for x in bad if not x[key]]
     drift = [x for x in bad if x[key] and x["field"] != 0]
     known_keys = dict((k, t) for k, t in vlib.load_known(pid))
-    kn = KNOWN.get(pid)
+    kns = [k for k in KNOWN.get(pid, []) if k[0] in known_keys]
     n_known = 0
     reported = 0
+
+    def known_for(case, x):
+        """a recorded finding whose stated shape the history has, provided the implementation behaved exactly
+        like the model of the current tree (no model / implementation difference)"""
+        if x["field"] != 0:
+            return None
+        for k in kns:
+            if k[1](case):
+                return k
+        return None
 
     def finalize(case):
         bb, _, oo = run_cases(ctx, binpath, [case], tag="fin")
@@ -708,22 +723,24 @@ def main_for(ctx, replay=None):
                                  replay_cmd="bin/vcheck %s --replay <this file>" % pid),
                        suffix="" if reported == 0 else "-%d" % reported)
 
-    first_known_done = False
+    known_done = set()
     for x in concrete:
         case = cases[x["case"]]
-        if kn and kn[0] in known_keys and x["field"] == 0 and kn[1](case):
-            # candidate for the recorded finding: same behaviour as the model of the current tree and the
-            # stated shape; the first one is minimised and the predicate re-checked on the minimal history
-            if not first_known_done:
+        kn = known_for(case, x)
+        if kn:
+            # candidate for the recorded finding; the first one per key is minimised and the predicate
+            # re-checked on the minimal history
+            if kn[0] not in known_done:
                 small = shrink(ctx, binpath, case, lambda y: not y[key] and y["field"] == 0)
                 if kn[1](small):
-                    first_known_done = True
+                    known_done.add(kn[0])
                     n_known += 1
                     vlib.known_finding(ctx, kn[0], kn[2] + "; minimal history: " + json.dumps(small["ops"]))
                     ctx.notes.append(dict(known_finding=kn[0], minimal_case=small))
                     continue
-                report_concrete(x, case)
-                reported += 1
+                if reported < 2:
+                    report_concrete(x, case)
+                    reported += 1
             else:
                 n_known += 1
             continue
@@ -738,7 +755,7 @@ def main_for(ctx, replay=None):
         for p2 in ("C01", "C06", "C11", "C16"):
             extra += gen_cases(ctx, p2, True)
         bad2, _, _ = run_cases(ctx, binpath, extra, tag="search")
-        conc2 = [y for y in bad2 if not y[key] and not (kn and kn[0] in known_keys and y["field"] == 0 and kn[1](extra[y["case"]]))]
+        conc2 = [y for y in bad2 if not y[key] and not known_for(extra[y["case"]], y)]
         if conc2:
             report_concrete(conc2[0], extra[conc2[0]["case"]])
         else:
